@@ -892,6 +892,86 @@ def rule_r17(prog, res):
               c01.rule_r14, prog, Result)
 
 
+def rule_r18(prog, res):
+    res.rule('R18', 'the XML object reader sets members of an object from '
+             'that object\'s own element only; helpers that write with a '
+             'polymorphic XmlDocument clean namespaces through the protocol '
+             '(which keeps xsi:type prefixes)')
+    x = prog.cls('spyne.protocol.xml:XmlDocument')
+    f = x.methods.get('complex_from_element')
+    if f is None:
+        raise AnalysisError('XmlDocument.complex_from_element', 'not found')
+    ps = f.params()
+    elt = ps[3] if len(ps) > 3 else 'elt'
+    n = 0
+    for loop in walk_no_defs(f.node):
+        if not isinstance(loop, ast.For):
+            continue
+        it = loop.iter
+        src = None
+        for a in ast.walk(it):
+            if isinstance(a, ast.Attribute) and a.attr == 'attrib':
+                src = unparse(a.value)
+        if src is None:
+            continue
+        sets = [c for st in loop.body for c in ast.walk(st)
+                if isinstance(c, ast.Call) and call_name(c) in (
+                    '_safe_set', 'setattr')]
+        if not sets:
+            continue
+        n += 1
+        ok = src == elt
+        where = '%s:%d' % (f.module.relpath, loop.lineno)
+        res.ob('R18', where, 'complex_from_element sets members from the '
+               'attributes of %s' % src, 'ok' if ok else 'VIOLATED')
+        if not ok:
+            res.finding('R18', 'XmlDocument.complex_from_element|foreign-'
+                        'attributes|%s' % ('child' if src != elt else src),
+                        where, 'members of the object being read are set '
+                        'from %s.attrib, which is not the object\'s own '
+                        'element (%s): when parent and child carry the same '
+                        '(inherited) XmlAttribute member the child\'s value '
+                        'overwrites the parent\'s' % (src, elt))
+    res.floor('R18', 'attribute loops in complex_from_element', n, 1)
+    m = 0
+    for mod in prog.modules.values():
+        if '/test/' in mod.relpath or not mod.relpath.startswith('spyne/'):
+            continue
+        for fn in mod.functions.values():
+            poly = [c for c in calls_in(fn.node)
+                    if call_name(c) in ('XmlDocument', 'Soap11', 'Soap12')
+                    and any(k.arg == 'polymorphic' and isinstance(
+                        k.value, ast.Constant) and k.value.value is True
+                        for k in c.keywords)]
+            if not poly:
+                continue
+            writes = [c for c in calls_in(fn.node)
+                      if call_name(c) in ('to_parent', 'serialize')]
+            if not writes:
+                continue
+            m += 1
+            plain = [c for c in calls_in(fn.node)
+                     if call_name(c) == 'cleanup_namespaces' and isinstance(
+                         c.func, ast.Attribute) and dotted(c.func.value) in (
+                             'etree', 'lxml.etree') and not any(
+                             k.arg == 'keep_ns_prefixes' for k in c.keywords)]
+            res.ob('R18', fn.where, '%s writes with a polymorphic protocol; '
+                   'plain etree.cleanup_namespaces calls: %d' % (
+                       fn.qualname, len(plain)),
+                   'VIOLATED' if plain else 'ok')
+            for c in plain:
+                res.finding('R18', '%s|plain-cleanup-after-polymorphic-write'
+                            % fn.qualname, '%s:%d' % (mod.relpath, c.lineno),
+                            '%s serialises with polymorphic=True and then '
+                            'calls etree.cleanup_namespaces without '
+                            'keep_ns_prefixes: the declaration of a prefix '
+                            'that only occurs in an xsi:type value is '
+                            'removed, so the type marker of a subclass '
+                            'instance without child elements does not '
+                            'resolve' % fn.qualname)
+    res.floor('R18', 'helpers writing with a polymorphic protocol', m, 1)
+
+
 def run(prog, res, tier):
     res.run_rule(rule_r1, prog, res)
     res.run_rule(rule_r2, prog, res)
@@ -910,6 +990,7 @@ def run(prog, res, tier):
     res.run_rule(rule_r15, prog, res)
     res.run_rule(rule_r16, prog, res)
     res.run_rule(rule_r17, prog, res)
+    res.run_rule(rule_r18, prog, res)
 
 
 _C = 'spyne/model/complex.py'
@@ -919,6 +1000,26 @@ _I = 'spyne/interface/_base.py'
 _H = 'spyne/protocol/dictdoc/hier.py'
 
 MUTANTS = [
+    Mutant('child-attributes-set-on-parent', 'R18', 'fire', _X,
+           in_func('XmlDocument.complex_from_element',
+                   "            inst._safe_set(key, value, member, "
+                   "member_attrs)\n",
+                   "            inst._safe_set(key, value, member, "
+                   "member_attrs)\n\n"
+                   "            for akey, value_str in c.attrib.items():\n"
+                   "                submember = flat_type_info.get(akey, None)"
+                   "\n                if submember is None or not issubclass("
+                   "submember, XmlAttribute):\n                    continue\n"
+                   "                inst._safe_set(akey, self._validated_from_"
+                   "unicode(submember.type, value_str), submember.type, "
+                   "self.get_cls_attrs(submember))\n", count=1),
+           'foreign-attributes'),
+    Mutant('polymorphic-helper-plain-cleanup', 'R18', 'fire',
+           'spyne/util/xml.py',
+           in_func('get_object_as_xml_polymorphic',
+                   "    app.out_protocol._cleanup_namespaces(parent)\n",
+                   "    etree.cleanup_namespaces(parent)\n"),
+           'plain-cleanup'),
     Mutant('fieldless-parent-skipped', 'R16', 'fire', 'spyne/model/complex.py',
            in_func('_get_type_info',
                    "            if (len(base_types) > 0 or\n                 "
